@@ -85,6 +85,15 @@ CHECKS['C09'] = dict(text='STRUCTURAL PART ONLY. For the portable sub-families t
                   'Result equality on live engines and the semantic equivalence of each documented substitution are outside the technique and not claimed.',
              note=TRUST_M + 'Trusted: the lexical map in props/c09.py and the equivalence of the documented substitutions themselves.',
              technique='symbolic execution of rustc MIR on three backends per path, token-level comparison after a lexical map, term identity of bound values', ref='6/C09', engine=ENGINE_M)
+CHECKS['C14'] = dict(text='Bounded symbolic execution of the MySQL and Postgres schema builders (prepare_table_create_statement, prepare_column_def / type / spec, prepare_table_alter_statement, index and foreign-key builders): the engine chooses the column type among all variants of the dialect '
+                  '(lengths / precisions / scales are symbolic numbers), every duplicate-free specification sequence of length <= 2 (3 thorough), table-level indexes / foreign keys / checks / options, ALTER option sequences of length <= 2 (3), CREATE INDEX and foreign-key variants; '
+                  'on every path a DDL recogniser of the dialect must accept the text and recover exactly the declared elements in order, the type name must be the dialect type of the abstract type (synonyms accepted) with parameters preserved by term identity and unsigned-ness preserved.',
+             note=TRUST_M + 'Oracle: props/ddlskel.py (DDL grammars and type tables from the MySQL 8.0 / PostgreSQL 16 manuals). Postgres type / extension statements and DROP / RENAME / TRUNCATE are checked on the concrete corpus only. Known findings: inline plain index on Postgres, MySQL Interval type.',
+             technique='symbolic execution of rustc MIR (type / specification / option forking, symbolic type parameters) with a reference DDL recogniser deciding each path', ref='6/C14', engine=ENGINE_M)
+CHECKS['C13'] = dict(text='STRUCTURAL PART ONLY. The C14 harness with the SQLite DDL grammar (CREATE TABLE, column constraints with PRIMARY KEY [AUTOINCREMENT] last, table constraints, ALTER TABLE single option, CREATE INDEX with partial predicate) plus the type-affinity check: for every SQLite-supported ColumnType variant with symbolic '
+                  'lengths / precisions the rendered type name is fed to the documented five-rule affinity algorithm and must give the intended affinity; AUTOINCREMENT requires the name INTEGER. Execution on a real SQLite engine and catalogue introspection are outside the technique and not claimed.',
+             note=TRUST_M + 'Trusted: my reading of the SQLite DDL diagrams and of "Datatypes in SQLite" 3.1 in props/ddlskel.py; the intended-affinity table. Known finding: inline plain index.',
+             technique='symbolic execution of rustc MIR with a reference DDL recogniser and the SQLite affinity algorithm deciding each path', ref='6/C13', engine=ENGINE_M)
 NA = {}
 def load_props():
     return [json.loads(l) for l in open(os.path.join(V, 'properties.jsonl'))]
